@@ -155,8 +155,12 @@ class MultiTanProcessor(object):
 
         # We can now compute the global properties of the tiled TAN representation:
 
-        width = int(global_crxmax - global_crxmin) + 1
-        height = int(global_crymax - global_crymin) + 1
+        # The inputs share a pixel grid, so these extents are whole numbers up
+        # to roundoff (the reference pixel itself need not be: CRPIX values
+        # like 512.3 are fine as long as all of the inputs agree). Round rather
+        # than truncate, or an extent of 299.9999999 loses a pixel.
+        width = int(np.rint(global_crxmax - global_crxmin)) + 1
+        height = int(np.rint(global_crymax - global_crymin)) + 1
         self._tiling = StudyTiling(width, height)
 
         ref_headers["CRPIX1"] = this_crpix1 + 1 + (mtdesc.crxmin - global_crxmin)
@@ -173,10 +177,13 @@ class MultiTanProcessor(object):
         self._n_todo = 0
 
         for desc in self._descs:
-            desc.imin = int(np.floor(desc.crxmin - global_crxmin))
-            desc.imax = int(np.ceil(desc.crxmax - global_crxmin))
-            desc.jmin = int(np.floor(desc.crymin - global_crymin))
-            desc.jmax = int(np.ceil(desc.crymax - global_crymin))
+            # Likewise, offsets within the common grid are whole numbers up to
+            # roundoff; floor/ceil would turn 29.9999999 into 29 or 30.0000001
+            # into 31 and make the segment one pixel too large.
+            desc.imin = int(np.rint(desc.crxmin - global_crxmin))
+            desc.imax = int(np.rint(desc.crxmax - global_crxmin))
+            desc.jmin = int(np.rint(desc.crymin - global_crymin))
+            desc.jmax = int(np.rint(desc.crymax - global_crymin))
 
             # Compute the sub-tiling now so that we can count how many total
             # tiles we'll need to process.
